@@ -10,7 +10,7 @@ T_STORE = {
     "C07": ([], ["T_C07_Reject", "T_C07_Accept"]),
     "C11": (["T_C11_NotBeforeInv", "T_C11_FromThen", "T_C11_CanPut", "T_C11_CanGet", "T_C11_DelayOnce"],
             ["T_C11_NotBeforeGet"]),
-    "C14": (["T_C14_Avail", "T_C14_WaitBound", "T_C14_Order"], []),
+    "C14": (["T_C14_Avail", "T_C14_WaitBound", "T_C14_Delivered", "T_C14_Order"], []),
     # slotted conveyor under arbitrary call sequences (read by the belt engine for C12)
     "C12": (["T_C12_MinTravelS", "T_C12_OrderS"], []),
 }
